@@ -213,7 +213,68 @@ def run(ctx):
                     ctx.divergence(dict(case, step=j), diff, 'see impl',
                                    'Model/Graph.v cache snapshot = ExcelCompiler.cell_map values')
                     break
+    unbounded_stream(ctx)
     shutil.rmtree(ctx.work, ignore_errors=True)
+
+
+def unbounded_stream(ctx):
+    """Oracle-only (unbounded ranges are not in Model/Graph.v): data in column A, formulas in columns B/C
+    over A:A and over row ranges holding only data; histories of writes to members and evaluations; every
+    evaluate must equal a from-scratch compile (repair 347fec5: the A:A reference had no graph edge)."""
+    import openpyxl
+    from pycel import ExcelCompiler
+    rng = ctx.rng
+    aggs = ['SUM', 'COUNT', 'MIN', 'MAX']
+    for k in range(ctx.n(60, 600)):
+        nrows = rng.randrange(2, 6)
+        data = {f'A{r}': rng.choice([1, 2, 3, 5, 8, -4, 0.5]) for r in range(1, nrows + 1)}
+        forms = {}
+        for j in range(rng.randrange(1, 4)):
+            body = f'{rng.choice(aggs)}(A:A)'
+            if rng.random() < 0.4:
+                body += f'+A{rng.randrange(1, nrows + 1)}'
+            if forms and rng.random() < 0.4:
+                body += f'+{rng.choice(sorted(forms))}'
+            forms[f'B{j + 1}'] = '=' + body
+        if rng.random() < 0.5:
+            forms['C1'] = f'={rng.choice(aggs)}(A:A)*2' if rng.random() < 0.5 else f'=B1+{rng.choice(aggs)}(A1:A{nrows})'
+
+        def book(values):
+            wb = openpyxl.Workbook()
+            ws = wb.active
+            ws.title = 'S'
+            for a, v in values.items():
+                ws[a] = v
+            for a, f in forms.items():
+                ws[a] = f
+            return wb
+        comp = ExcelCompiler(excel=book(data))
+        cur = dict(data)
+        hist = []
+        for step in range(rng.randrange(5, 10)):
+            if hist and rng.random() < 0.45:
+                a = rng.choice(sorted(cur))
+                if f'S!{a}' not in comp.cell_map:
+                    continue
+                v = rng.choice([x for x in [1, 2, 3, 5, 8, -4, 0.5, 10] if x != cur[a]])
+                comp.set_value(f'S!{a}', v)
+                cur[a] = v
+                hist.append(['set', a, v])
+            else:
+                a = rng.choice(sorted(forms))
+                hist.append(['eval', a])
+                case = dict(call='unbounded', data=data, formulas=forms, history=list(hist))
+                try:
+                    got = canon(comp.evaluate(f'S!{a}'))
+                    want = canon(ExcelCompiler(excel=book(cur)).evaluate(f'S!{a}'))
+                except Exception as exc:    # noqa: BLE001
+                    ctx.violation(case, f"evaluate raises {type(exc).__name__}: {exc}"[:200])
+                    break
+                ctx.count(('unbounded', k, step), kind='oracle:unbounded')
+                if got != want:
+                    ctx.violation(case, "evaluate of a formula over an unbounded range differs from a "
+                                        f"from-scratch compile with the current inputs: {got} != {want}")
+                    break
 
 
 def same_py(a, b):
